@@ -123,38 +123,8 @@ def traverse_facts(ctx, cq):
             # concatenation, in order, of exactly the layer hashes yielded: every definition of the variable is either
             # `<empty bytes>.join(hasher)` or an empty value followed, in the same block, by one loop over the hasher that
             # extends it on every iteration
-            v = st.value.id
-            ext = [n for n in body_nodes if isinstance(n, ast.Call) and isinstance(n.func, ast.Attribute) and n.func.attr == "extend" and norm(n.func.value) == v]
-            init = [n for n in body_nodes if isinstance(n, ast.Assign) and norm(n.targets[0]) == v]
-            other = [n for n in body_nodes if (isinstance(n, ast.AugAssign) and norm(n.target) == v)
-                     or (isinstance(n, ast.Name) and n.id == v and isinstance(n.ctx, ast.Store) and not any(n is i.targets[0] for i in init))]
-            EMPTY = ("bytearray()", "b''", "bytes()")
-            paired = set()
-            ok = bool(init) and not other
-            for i_ in init:
-                iv = i_.value
-                if isinstance(iv, ast.Call) and isinstance(iv.func, ast.Name) and iv.func.id in ("bytearray", "bytes") and len(iv.args) == 1 and not iv.keywords:
-                    iv = iv.args[0]
-                if isinstance(iv, ast.Call) and isinstance(iv.func, ast.Attribute) and iv.func.attr == "join" and norm(iv.func.value) in EMPTY and len(iv.args) == 1 and norm(iv.args[0]) == hv:
-                    continue
-                if norm(i_.value) not in EMPTY:
-                    ok = False
-                    continue
-                holder = ctx.prog.parent.get(i_)
-                blk = next((getattr(holder, f_) for f_ in ("body", "orelse", "finalbody") if isinstance(getattr(holder, f_, None), list) and i_ in getattr(holder, f_)), None)
-                after = blk[blk.index(i_) + 1:] if blk else []
-                loops = [x for x in after if isinstance(x, ast.For) and norm(x.iter) == hv and any(e in list(ast.walk(x)) for e in ext)]
-                if len(loops) != 1:
-                    ok = False
-                    continue
-                mine = [e for e in ext if e in list(ast.walk(loops[0]))]
-                gl = g.of[loops[0]]
-                bs = C.succ_by_label(gl, "iter")[0]
-                if len(mine) != 1 or not g.must_pass(bs, gl, {C.stmt_node(ctx, fn, mine[0])}):
-                    ok = False
-                paired.update(id(e) for e in mine)
-            ok = ok and all(id(e) in paired for e in ext)
-            F["layer.value"] = Fact("concatenation of every layer hash the hasher yields, in order" if ok else "?" + val, st, fn)
+            ok = _concat_of_yields(ctx, fn, g, body_nodes, st.value.id, hv, (0, None))
+            F["layer.value"] = Fact("concatenation of every layer hash the hasher yields, in order" if ok is True else ("concatenation of " + ok) if ok else "?" + val, st, fn)
         else:
             F["layer.value"] = Fact("?" + val, st, fn)
     else:
@@ -220,6 +190,93 @@ def traverse_facts(ctx, cq):
 
 
 FLAT_ENTRY = "called once per file of a flat listing sorted by full path"
+
+
+def _concat_of_yields(ctx, fn, g, body_nodes, v, hv, positions):
+    """True / False (not understood) / a sentence saying what is concatenated instead.
+    Local v holds the concatenation, in order, of what the per-file hasher yields - the whole element (position None) or
+    the given position of a yielded pair: every definition of v is `<empty bytes>.join(hasher)` (whole elements only), or an
+    empty value; every growth of v is `v.extend(x)` on every iteration of a loop over the hasher, x being the element (or that
+    position of it); and on no path through the function does the hasher feed two such loops."""
+    EMPTY = ("bytearray()", "b''", "bytes()")
+    ext = [n for n in body_nodes if isinstance(n, ast.Call) and isinstance(n.func, ast.Attribute) and n.func.attr == "extend" and norm(n.func.value) == v and len(n.args) == 1]
+    inits = []          # (statement, value expression)
+    for n in body_nodes:
+        if isinstance(n, ast.Assign) and len(n.targets) == 1:
+            t = n.targets[0]
+            if isinstance(t, ast.Name) and t.id == v:
+                inits.append((n, n.value))
+            elif isinstance(t, (ast.Tuple, ast.List)) and isinstance(n.value, (ast.Tuple, ast.List)) and len(t.elts) == len(n.value.elts):
+                for te, ve in zip(t.elts, n.value.elts):
+                    if isinstance(te, ast.Name) and te.id == v:
+                        inits.append((n, ve))
+    stores = [n for n in body_nodes if isinstance(n, ast.Name) and n.id == v and isinstance(n.ctx, (ast.Store, ast.Del))]
+    other = [n for n in body_nodes if isinstance(n, ast.AugAssign) and norm(n.target) == v]
+    if not inits or other or len(stores) != len(inits):
+        return False
+    for i_, iv in inits:
+        if isinstance(iv, ast.Call) and isinstance(iv.func, ast.Name) and iv.func.id in ("bytearray", "bytes") and len(iv.args) == 1 and not iv.keywords:
+            iv = iv.args[0]
+        if isinstance(iv, ast.Call) and isinstance(iv.func, ast.Attribute) and iv.func.attr == "join" and norm(iv.func.value) in EMPTY and len(iv.args) == 1 and norm(iv.args[0]) == hv:
+            if None not in positions:
+                return False
+            continue
+        if norm(iv) not in EMPTY:
+            return False
+    loops = []
+    for e in ext:
+        l = None
+        n = e
+        while n is not None and n is not fn.node:
+            n = ctx.prog.parent.get(n)
+            if isinstance(n, ast.For):
+                l = n
+                break
+        if l is None or norm(l.iter) != hv:
+            return False
+        # what is appended: the loop element, or the wanted position of it
+        arg = e.args[0]
+        good = False
+        found_pos = None
+        if isinstance(arg, ast.Name):
+            if isinstance(l.target, ast.Name) and l.target.id == arg.id and None in positions:
+                good = True
+            if isinstance(l.target, (ast.Tuple, ast.List)):
+                idx = [i for i, t in enumerate(l.target.elts) if isinstance(t, ast.Name) and t.id == arg.id]
+                good = good or (len(idx) == 1 and idx[0] in positions)
+                if len(idx) == 1 and not good:
+                    found_pos = idx[0]
+            if not good and isinstance(l.target, ast.Name):
+                # layer_hash, piece = result  (under the mode test), result being the loop element
+                for what, payload in ctx.res.bindings(fn).get(arg.id, []):
+                    if what == "unpack" and isinstance(payload[0], ast.Name) and payload[0].id == l.target.id and payload[1] in positions:
+                        good = True
+                    elif what == "value" and isinstance(payload, ast.Name) and payload.id == l.target.id and None in positions:
+                        good = True
+                    elif what not in ("unpack", "value"):
+                        good = False
+                        break
+        if not good:
+            if found_pos is not None:
+                return "position %s of what the hasher yields, not %s" % (found_pos, " / ".join("the element itself" if p_ is None else "position %d" % p_ for p_ in positions))
+            return False
+        gl = g.of[l]
+        bs = C.succ_by_label(gl, "iter")[0]
+        mine = [x for x in ext if any(x is y for y in ast.walk(l))]
+        if len(mine) == 1 and not g.must_pass(bs, gl, {C.stmt_node(ctx, fn, e)}) and not any(isinstance(x, (ast.Break, ast.Return, ast.Continue, ast.Try)) for st in l.body for x in ast.walk(st)):
+            tests = [norm(C.test_expr(b_)) for b_, lab in g.direct_control_deps(C.stmt_node(ctx, fn, e)) if C.test_expr(b_) is not None and b_.ast is not None
+                     and any(b_.ast is y for y in ast.walk(l))]
+            if tests:
+                return "only the elements for which `%s` holds, not every element the hasher yields" % " and ".join(tests)
+        if len(mine) != 1 or not g.must_pass(bs, gl, {C.stmt_node(ctx, fn, e)}) or any(isinstance(x, (ast.Break, ast.Return)) for st in l.body for x in ast.walk(st)):
+            return False
+        loops.append(l)
+    # two loops over the one hasher must exclude each other (the arms of a mode test)
+    for a_ in loops:
+        for b_ in loops:
+            if a_ is not b_ and g.of[b_] in g.reachable(g.of[a_]):
+                return False
+    return bool(loops) or all(norm(iv) not in EMPTY for _, iv in inits)
 
 
 def _abbreviations(fn):
@@ -466,7 +523,7 @@ def hybrid_entry_facts(ctx, cq, fn, fb, sv, hv):
         pn = C.stmt_node(ctx, fn, a)
         conds = sorted(norm(C.test_expr(b)) for b, lab in g.direct_control_deps(pn) if C.test_expr(b) is not None and lab == "true" and b.ast is not fb)
         want_conds = [c for c in conds if c not in (flag,)]
-        foreign_pad = _foreign_object(src, fn, hv)
+        foreign_pad = _foreign_object(src, fn, hv) or (src if _bare_local(src, fn, {hv}) else None)
         ok_src = src == "%s.padding_file" % hv
         ok_cond = all(src in c for c in want_conds) and bool(want_conds)
         after = bool(real) and pn in g.reachable(C.stmt_node(ctx, fn, real[0]))
@@ -490,8 +547,15 @@ def hybrid_entry_facts(ctx, cq, fn, fb, sv, hv):
                 # `for layer_hash, piece in hasher:` - the same, unpacked in the loop target
                 if what == "iterunpack" and payload[1] == 1 and norm(payload[0]) == hv:
                     ok = True
-        F["v1.pieces"] = Fact("extended with the hasher's v1 piece hashes" if ok else "extend(%s)" % v, pe[0], fn) if ok or not _foreign_object(v, fn, hv) else \
-            und("the v1 piece hashes are read from `%s`, an object other than the per-file hasher, which the extractor does not follow" % v, pe[0], fn)
+        if not ok and isinstance(pe[0].args[0], ast.Name) and hv is not None:
+            # a local that collects them first: pieces = bytearray(); for layer, piece in hasher: pieces.extend(piece)
+            ok = _concat_of_yields(ctx, fn, g, body_nodes, v, hv, (1,))
+            if isinstance(ok, str):
+                F["v1.pieces"] = Fact("extended with " + ok, pe[0], fn)
+                ok = None
+        if ok is not None:
+            F["v1.pieces"] = Fact("extended with the hasher's v1 piece hashes" if ok else "extend(%s)" % v, pe[0], fn) if ok or not (_foreign_object(v, fn, hv) or _bare_local(v, fn, {hv})) else \
+                und("the v1 piece hashes are read from `%s`, an object other than the per-file hasher, which the extractor does not follow" % v, pe[0], fn)
     else:
         F["v1.pieces"] = und("expected one extension of self.pieces, found %d" % len(pe), fb, fn)
     if hv is None:
